@@ -357,7 +357,7 @@ Section RoundTrip.
 
   Lemma eat_whitespace_idem ts : eat_whitespace (eat_whitespace ts) = eat_whitespace ts.
   Proof.
-    induction ts as [|[k s] r IH]; [reflexivity|]. destruct k; try reflexivity. exact IH.
+    induction ts as [|[k s] r IH]; [reflexivity|]. destruct k; try reflexivity; exact IH.
   Qed.
   Lemma eat_whitespace_length ts : length (eat_whitespace ts) <= length ts.
   Proof.
@@ -901,6 +901,7 @@ Section Total.
     - apply IH. cbn. lia.
     - destruct r as [|[k2 s2] r2]; [reflexivity|]. destruct k2; try reflexivity. apply IH. cbn. lia.
     - apply IH. cbn. lia.
+    - apply IH. cbn. lia.
   Qed.
 
   Lemma read_architectures_fine ts : fine (read_architectures ts).
@@ -923,6 +924,8 @@ Section Total.
       destruct (IH r2 ltac:(cbn; lia) (acc ++ [Disabled s2])) as [F L]. split; [exact F|].
       intros g r' E. specialize (L g r' E). cbn. lia.
     - split; [reflexivity|]. intros g r' E. inversion E; subst. cbn. lia.
+    - destruct (IH r ltac:(cbn; lia) acc) as [F L]. split; [exact F|].
+      intros g r' E. specialize (L g r' E). cbn. lia.
     - destruct (IH r ltac:(cbn; lia) acc) as [F L]. split; [exact F|].
       intros g r' E. specialize (L g r' E). cbn. lia.
   Qed.
@@ -949,7 +952,7 @@ Section Total.
     apply fine_bind; [destruct ts as [|[k s] r]; [reflexivity|destruct k; reflexivity]|]. intros [name t1] _.
     apply fine_bind.
     { unfold read_archqual. destruct (eat_whitespace t1) as [|[k s] r]; [reflexivity|]. destruct k; try reflexivity.
-      destruct r as [|[k2 s2] r2]; [reflexivity|]. destruct k2; reflexivity. }
+      destruct (eat_whitespace r) as [|[k2 s2] r2]; [reflexivity|]. destruct k2; reflexivity. }
     intros [aq t2] _. apply fine_bind; [apply read_version_fine|]. intros [ver t3] _.
     apply fine_bind; [apply read_architectures_fine|]. intros [archs t4] _.
     apply fine_bind; [apply read_profiles_fine; pose proof (eat_whitespace_len t4); lia|]. intros [profs t5] _.
@@ -1171,6 +1174,26 @@ Lemma old_profile_whitespace_refuted :
   old_relation_from_str dv_parse (old_print_relation dv_print (mkRel [97%N] None None None [[]; []])) = Err 8%N.
 Proof. vm_compute. repeat split. Qed.
 
+(* audit A4: a line break inside a relation (a folded field) is rejected by the reader of /repo 5517d72;
+   the patched reader takes it, also between ':' and the qualifier *)
+Lemma oldnl_newline_refuted :
+  oldnl_relation_from_str dv_parse [97; 10; 32; 40; 62; 61; 32; 49; 41]%N = Err 9%N /\          (* "a\n (>= 1)" *)
+  oldnl_relation_from_str dv_parse [97; 32; 40; 62; 61; 10; 32; 49; 41]%N = Err 4%N /\          (* "a (>=\n 1)" *)
+  oldnl_relation_from_str dv_parse [97; 32; 91; 10; 32; 98; 93]%N = Err 7%N /\                  (* "a [\n b]" *)
+  oldnl_relation_from_str dv_parse [97; 32; 60; 10; 32; 98; 62]%N = Err 8%N /\                  (* "a <\n b>" *)
+  oldnl_relation_from_str dv_parse [97; 58; 32; 98]%N = Err 2%N /\                              (* "a: b" *)
+  oldnl_relations_from_str dv_parse [97; 10; 32; 40; 62; 61; 32; 49; 41; 44; 32; 98]%N = Err 9%N. (* "a\n (>= 1), b" *)
+Proof. vm_compute. repeat split. Qed.
+Lemma newline_fixed :
+  relation_from_str dv_parse [97; 10; 32; 40; 62; 61; 32; 49; 41]%N = Ok (mkRel [97%N] None None (Some (VC_ge, mkDv None [49%N] None)) []) /\
+  relation_from_str dv_parse [97; 32; 40; 62; 61; 10; 32; 49; 41]%N = Ok (mkRel [97%N] None None (Some (VC_ge, mkDv None [49%N] None)) []) /\
+  relation_from_str dv_parse [97; 32; 91; 10; 32; 98; 93]%N = Ok (mkRel [97%N] None (Some [[98%N]]) None []) /\
+  relation_from_str dv_parse [97; 32; 60; 10; 32; 98; 62]%N = Ok (mkRel [97%N] None None None [[Enabled [98%N]]]) /\
+  relation_from_str dv_parse [97; 58; 32; 98]%N = Ok (mkRel [97%N] (Some [98%N]) None None []) /\
+  relations_from_str dv_parse [97; 10; 32; 40; 62; 61; 32; 49; 41; 44; 32; 98]%N
+    = Ok [[mkRel [97%N] None None (Some (VC_ge, mkDv None [49%N] None)) []]; [mkRel [98%N] None None None []]].
+Proof. vm_compute. repeat split. Qed.
+
 (* the same inputs on the patched code *)
 Lemma new_witnesses_fixed :
   relation_from_str dv_parse (print_relation dv_print w_negated_arch) = Ok w_negated_arch /\
@@ -1267,7 +1290,7 @@ Section ReaderRange.
   Lemma eat_whitespace_forall (P : rtoken -> Prop) ts : Forall P ts -> Forall P (eat_whitespace ts).
   Proof.
     induction ts as [|[k s] r IH]; intros H; [exact H|]. inversion H; subst.
-    destruct k; try exact H. cbn [eat_whitespace]. apply IH. assumption.
+    destruct k; try exact H; cbn [eat_whitespace]; apply IH; assumption.
   Qed.
 
   Lemma read_constraint_forall (P : rtoken -> Prop) ts : forall acc, Forall P ts -> Forall P (snd (read_constraint ts acc)).
@@ -1318,6 +1341,7 @@ Section ReaderRange.
       rewrite forallb_app, Ha. cbn [forallb andb]. rewrite andb_true_r.
       specialize (Hk2 eq_refl). cbn [snd] in Hk2. unfold arch_ok. rewrite N.eqb_refl. exact Hk2.
     - eapply (IH t); [cbn; lia|exact Ht|exact Ha|exact E].
+    - eapply (IH t); [cbn; lia|exact Ht|exact Ha|exact E].
   Qed.
 
   Lemma read_profile_group_range ts : forall acc g r, Forall tok_ok ts -> forallb profile_ok acc = true ->
@@ -1333,6 +1357,7 @@ Section ReaderRange.
       eapply (IH t2); [cbn; lia|exact Ht2| |exact E].
       rewrite forallb_app, Ha. cbn [forallb andb profile_ok]. rewrite andb_true_r. exact (Hk2 eq_refl).
     - inversion E; subst. split; assumption.
+    - eapply (IH t); [cbn; lia|exact Ht|exact Ha|exact E].
     - eapply (IH t); [cbn; lia|exact Ht|exact Ha|exact E].
   Qed.
 
@@ -1372,7 +1397,8 @@ Section ReaderRange.
     { unfold read_archqual in E2. destruct (eat_whitespace t1) as [|[k w] u]; [inversion E2; subst; split; [exact I|constructor]|].
       inversion Ht1 as [|? ? Hk1 Hu]; subst.
       destruct k; try (inversion E2; subst; split; [exact I|exact Ht1]).
-      destruct u as [|[k2 s2] u2]; [discriminate|]. inversion Hu as [|? ? Hk2 Hu2]; subst.
+      pose proof (eat_whitespace_forall tok_ok u Hu) as Hu'.
+      destruct (eat_whitespace u) as [|[k2 s2] u2]; [discriminate|]. inversion Hu' as [|? ? Hk2 Hu2]; subst.
       destruct k2; try discriminate. inversion E2; subst. split; [exact (Hk2 eq_refl)|exact Hu2]. }
     destruct Hq as [Hq Ht2].
     pose proof (read_version_forall tok_ok _ _ _ (eat_whitespace_forall tok_ok t2 Ht2) E3) as Ht3.
